@@ -115,6 +115,11 @@ func (db *SingleBucketBackend) ListBucket(bucket string, prefix *gofakes3.Prefix
 }
 
 func (db *SingleBucketBackend) getBucketWithFilePrefixLocked(bucket string, prefixPath, prefixPart string) (*gofakes3.ObjectList, error) {
+	// Keys are clean relative paths (see validKey): no key starts with a prefix
+	// whose directory part has an empty, "." or ".." segment.
+	if prefixPath != "" && !validKey(prefixPath) {
+		return gofakes3.NewObjectList(), nil
+	}
 	// No key can start with a prefix whose directory part does not exist (or
 	// is a file); that is an empty listing, not an error:
 	if isDir, err := afero.IsDir(db.fs, filepath.FromSlash(prefixPath)); err != nil && !os.IsNotExist(err) {
